@@ -249,6 +249,11 @@ func (c *UDPConn) WriteTo(payload []byte, addr net.Addr) (int, error) { //nolint
 		}
 	}
 	if err != nil {
+		if errors.Is(err, errTryAgain) {
+			// Retries used up: leave nothing behind, as for any other failure.
+			c.permMap.delete(addr)
+		}
+
 		return 0, err
 	}
 
